@@ -575,4 +575,20 @@ def run(ctx, ck):
           'attachment) but the reader numbers them by class order %s: a Laplace-type load attached '
           'before a simple load is read back with the attachments swapped' % order if not ok else
           'load definitions are written in the order the reader numbers them')
+    # the writer prints the geometry as it was entered: the snapshot must not share its array with state that is
+    # updated in place
+    ck.rule('R-ALIAS.snapshot', 'an attribute that is another name of an array attribute (`self.a = self.b`) is not changed through in-place updates of either')
+    from ..rules import alias_mutations
+    hits_, n_al = alias_mutations(ctx)
+    seen_ = set()
+    for ci_, s_, g_, A_, B_, x_, h_ in hits_:
+        key_ = '%s|%s~%s|%s' % (ci_.name, A_, B_, h_.qual)
+        if key_ in seen_:
+            continue
+        seen_.add(key_)
+        ck.ob('R-ALIAS.snapshot', key_, False, h_.loc(x_),
+              '`%s` updates in place the array that `self.%s` and `self.%s` both name (alias made by `%s` in %s): the '
+              'value kept in the other attribute changes with it' % (norm(x_)[:60], A_, B_, norm(s_), g_.qual))
+    ck.ob('R-ALIAS.snapshot', 'package', True, 'mininec', '%d attribute aliases of arrays examined' % n_al)
+    ck.floor('attribute aliases of arrays', n_al, 1)
     ck.undecided += ['feed impedance of the re-read model equals the original to printed precision']
